@@ -12,7 +12,7 @@ use serde_json::{Value, json};
 use std::time::Duration;
 use tokio::io::AsyncWriteExt;
 
-pub const RULE: &str = "(faults) for each client (blocking, async, WebSocket): N in 0..16 calls in flight, the scripted peer reads j<=N requests, answers a<=j of them, then injects one fault from {close, RST (SO_LINGER 0), half-close while still draining, bad magic, length mismatch, truncated header then close, unallocatable declared length, partial response of r in {1,47,48,48+q,total-1} bytes then close/RST, (WS) text frame, (WS) garbage bytes}, optionally staying silent instead of closing after a malformed frame; oracle: every unanswered in-flight call returns Err and a later call returns Err, each within a 10 s watchdog, answered calls never return another call's body, a notify subscriber sees end-of-stream, and the pending map is empty afterwards; (timeouts) K calls with one victim whose response is delayed to timeout+-5ms, or whose task is aborted at a generated instant: either the own response or a timeout error is accepted for the victim, every other call gets its own response, a follow-up call succeeds and the pending map is empty; non-trivial = fault landed with >=1 call in flight, or a timeout within +-5 ms of the response; distinct = case hash";
+pub const RULE: &str = "(faults) for each client (blocking, async, WebSocket): N in 0..16 calls in flight, the scripted peer reads j<=N requests, answers a<=j of them, then injects one fault from {close, RST (SO_LINGER 0), half-close while still draining, bad magic, length mismatch, truncated header then close, unallocatable declared length, partial response of r in {1,47,48,48+q,total-1} bytes then close/RST, (WS) text frame, (WS) garbage bytes}, optionally staying silent instead of closing after a malformed frame; oracle: every unanswered in-flight call returns Err and a later call returns Err, each within a 10 s watchdog, answered calls never return another call's body, a notify subscriber sees end-of-stream, and the pending map is empty afterwards; (timeouts) K calls with one victim whose response is delayed to timeout+-5ms, or whose task is aborted at a generated instant: either the own response or a timeout error is accepted for the victim, every other call gets its own response, a follow-up call succeeds and the pending map is empty; WebSocket Close frame with the TCP connection kept open; (timeouts) also through AsyncClient::forward_message_with_timeout with caller-chosen ids, where the id of a timed-out / cancelled forward must be usable again at once; non-trivial = fault landed with >=1 call in flight, or a timeout within +-5 ms of the response; distinct = case hash";
 
 #[derive(Debug, Clone, Copy, Serialize, Deserialize, Hash, PartialEq, Eq)]
 pub enum ClientKind {
@@ -34,6 +34,8 @@ pub enum Fault {
     Partial { sel: u8, rst: bool },
     WsText,
     WsGarbage,
+    /// A WebSocket Close frame, after which the peer keeps the TCP connection open.
+    WsCloseFrame,
 }
 
 #[derive(Debug, Clone, Serialize, Deserialize, Hash, PartialEq, Eq)]
@@ -69,8 +71,35 @@ impl AnyClient {
         }
     }
     fn spawn_call(&self, k: usize, timeout: Option<Duration>) -> tokio::task::JoinHandle<Result<Value, String>> {
+        self.spawn_call_via(k, timeout, false)
+    }
+    /// `forward`: on the async client, send a caller-built message (caller-chosen id
+    /// 9000+k) through `forward_message_with_timeout` instead of `call_json`.
+    fn spawn_call_via(&self, k: usize, timeout: Option<Duration>, forward: bool) -> tokio::task::JoinHandle<Result<Value, String>> {
         let path = format!("/c/{k}");
         let body = json!({"k": k});
+        if let (AnyClient::A(c), true) = (self, forward) {
+            let c = c.clone();
+            return tokio::spawn(async move {
+                let msg = repe::Message::builder()
+                    .id(9000 + k as u64)
+                    .query_str(&path)
+                    .query_format(repe::QueryFormat::JsonPointer)
+                    .body_json(&body)
+                    .map_err(|e| e.to_string())?
+                    .build();
+                let r = match timeout {
+                    Some(t) => c.forward_message_with_timeout(&msg, t).await,
+                    None => c.forward_message(&msg).await,
+                }
+                .map_err(|e| e.to_string())?;
+                match r {
+                    Some(m) if m.header.ec == 0 => m.json_body::<Value>().map_err(|e| e.to_string()),
+                    Some(m) => Err(format!("error response ec {}", m.header.ec)),
+                    None => Err("forward returned no response".to_string()),
+                }
+            });
+        }
         match self {
             AnyClient::B(c) => {
                 let c = c.clone();
@@ -201,7 +230,7 @@ pub fn check_fault(c: &FaultCase) -> CheckResult {
     let read_before = (c.read_before as usize).min(n);
     let answered_before = (c.answered_before as usize).min(read_before);
     let ws = c.client == ClientKind::Ws;
-    if !ws && matches!(c.fault, Fault::WsText | Fault::WsGarbage) {
+    if !ws && matches!(c.fault, Fault::WsText | Fault::WsGarbage | Fault::WsCloseFrame) {
         return Ok(CaseInfo::new(false).class("skipped-ws-only-fault"));
     }
     let res: Result<(Vec<(usize, Result<Value, String>)>, Vec<usize>, bool), Fail> = block_on(async {
@@ -308,6 +337,14 @@ pub fn check_fault(c: &FaultCase) -> CheckResult {
                 if let AnyIo::W(w) = &mut io {
                     let _ = w.send_text("not binary").await;
                 }
+                keep_io = Some(io);
+            }
+            Fault::WsCloseFrame => {
+                if let AnyIo::W(w) = &mut io {
+                    use futures_util::SinkExt;
+                    let _ = w.ws.send(repe::tokio_tungstenite::tungstenite::Message::Close(None)).await;
+                }
+                // the TCP connection stays open: only the WebSocket session was closed
                 keep_io = Some(io);
             }
             Fault::WsGarbage => {
@@ -433,6 +470,7 @@ fn fault() -> BoxedStrategy<Fault> {
         4 => (0u8..5, any::<bool>()).prop_map(|(sel, rst)| Fault::Partial { sel, rst }),
         1 => Just(Fault::WsText),
         1 => Just(Fault::WsGarbage),
+        1 => Just(Fault::WsCloseFrame),
     ]
     .boxed()
 }
@@ -481,6 +519,7 @@ fn grid() -> Vec<FaultCase> {
         Fault::Partial { sel: 4, rst: true },
         Fault::WsText,
         Fault::WsGarbage,
+        Fault::WsCloseFrame,
     ];
     let mut v = Vec::new();
     for client in [ClientKind::Blocking, ClientKind::Async, ClientKind::Ws] {
@@ -517,6 +556,9 @@ pub struct TimeoutCase {
     /// The peer never answers the victim at all (the timed-out / cancelled call
     /// must leave nothing behind on its own, without a late response cleaning up).
     pub never_answer: bool,
+    /// (AsyncClient) the calls go through `forward_message_with_timeout` (caller-chosen ids).
+    #[serde(default)]
+    pub forward: bool,
 }
 
 pub fn check_timeout(c: &TimeoutCase) -> CheckResult {
@@ -536,7 +578,7 @@ pub fn check_timeout(c: &TimeoutCase) -> CheckResult {
             } else {
                 Some(Duration::from_secs(60))
             };
-            handles.push(client.spawn_call(i, timeout));
+            handles.push(client.spawn_call_via(i, timeout, c.forward));
         }
         // peer: read all K requests, answer the others at once, the victim late
         let mut frames = Vec::new();
@@ -595,6 +637,26 @@ pub fn check_timeout(c: &TimeoutCase) -> CheckResult {
                 }
             }
         }
+        // a forwarded request may reuse the id of the timed-out / cancelled one at once
+        if c.forward && victim_timed_out {
+            let again = client.spawn_call_via(victim, Some(Duration::from_secs(60)), true);
+            let f = match tokio::time::timeout(watchdog(), io.recv()).await {
+                Ok(Ok(Some(f))) => f,
+                _ => {
+                    let why = match tokio::time::timeout(Duration::from_millis(200), again).await {
+                        Ok(Ok(Err(e))) => e,
+                        _ => "nothing arrived".to_string(),
+                    };
+                    return Err(Fail::new("id-not-released", format!("a forward reusing the id of the timed-out / cancelled forward never reached the peer: {why}")));
+                }
+            };
+            io.send(&ok_response(&f)).await.map_err(|e| Fail::new("peer-script", e.to_string()))?;
+            match tokio::time::timeout(watchdog(), again).await {
+                Ok(Ok(Ok(_))) => {}
+                Ok(Ok(Err(e))) => return Err(Fail::new("id-not-released", format!("a forward reusing the id of the timed-out / cancelled forward failed: {e}"))),
+                _ => return Err(Fail::new("call-hangs", "re-forward did not return")),
+            }
+        }
         // the client keeps serving: a follow-up call succeeds with its own response
         let follow = client.spawn_call(777, Some(Duration::from_secs(60)));
         let f = match tokio::time::timeout(watchdog(), io.recv()).await {
@@ -629,7 +691,8 @@ pub fn check_timeout(c: &TimeoutCase) -> CheckResult {
             .class(format!("{:?}", c.client))
             .class(if victim_timed_out { "victim-failed" } else { "victim-got-response" })
             .class(if c.cancel_at_ms.is_some() { "cancelled" } else { "timeout-race" })
-            .class(if c.never_answer { "never-answered" } else { "late-response" }))
+            .class(if c.never_answer { "never-answered" } else { "late-response" })
+            .class(if c.forward { "forward_message" } else { "call_json" }))
     })
 }
 
@@ -642,8 +705,9 @@ fn timeout_case() -> BoxedStrategy<TimeoutCase> {
         prop_oneof![3 => -50i16..=50, 1 => -150i16..-50, 2 => 50i16..300],
         prop::option::weighted(0.3, 0u16..30),
         prop::bool::weighted(0.3),
+        prop::bool::weighted(0.4),
     )
-        .prop_map(|(client, k, victim, timeout_ms, delta_tenths, cancel_at_ms, never_answer)| TimeoutCase {
+        .prop_map(|(client, k, victim, timeout_ms, delta_tenths, cancel_at_ms, never_answer, forward)| TimeoutCase {
             client,
             k,
             victim,
@@ -651,6 +715,7 @@ fn timeout_case() -> BoxedStrategy<TimeoutCase> {
             delta_tenths,
             cancel_at_ms,
             never_answer,
+            forward: forward && client == ClientKind::Async,
         })
         .boxed()
 }
